@@ -33,6 +33,13 @@ def run_lp(case):
                 events.append(_ev(solver, fn(cf, Af, bf, minimize=minimize), minimize, n))
             except Exception as ex:  # noqa: BLE001
                 events.append({"e": "raise", "solver": solver, "what": type(ex).__name__})
+    # the iteration limit: "short of its iteration limit, which it reports as MAX_ITER" - every other verdict must stay true
+    for mi in case.get("max_iters", (1, 2, 3)):
+        for minimize in (True, False):
+            try:
+                events.append(_ev("simplex", solve_lp(cf, Af, bf, minimize=minimize, max_iter=mi), minimize, n))
+            except Exception as ex:  # noqa: BLE001
+                events.append({"e": "raise", "solver": "simplex", "what": type(ex).__name__})
     return {"A": A, "b": b, "c": c, "m": m, "n": n, "events": events, "input": case}
 
 
